@@ -110,3 +110,20 @@ V("c16-moral-oneway", "C16", "fire", UT, "        moral[i, j] = 1\n        moral
 V("c16-silent-vs-min-max", "C16", "silent", UT, "vstruct = (i, c, j) if i < j else (j, c, i)", "vstruct = (min(i, j), c, max(i, j))", what="equivalent normalisation")
 V("c16-silent-vs-ge2", "C16", "silent", UT, "colliders = np.where((dir_A != 0).sum(axis=0) > 1)[0]", "n_parents = (dir_A != 0).sum(axis=0)\n    colliders = np.where(n_parents >= 2)[0]", what="equivalent pre-filter")
 V("c16-silent-skeleton-or", "C16", "silent", UT, "return ((A + A.T) != 0).astype(int)", "return np.logical_or(A != 0, A.T != 0).astype(int)", what="skeleton via logical_or")
+
+# ------------------------------------------------------------------------------- C13
+SEEDLINE = "np.random.seed(random_state) if random_state is not None else None"
+V("c13-anm-truthy", "C13", "fire", AN, SEEDLINE, "np.random.seed(random_state) if random_state else None", rule="R", what="seed 0 ignored by ANM.sample")
+V("c13-nd-noseed", "C13", "fire", ND, "        " + SEEDLINE + "\n", "", rule="R1.global", what="NormalDistribution.sample never seeds")
+V("c13-nd-fallback", "C13", "fire", ND, SEEDLINE, "np.random.seed(random_state or 42)", rule="R", what="fallback seed, always seeded")
+V("c13-lganm-drops-seed", "C13", "fire", LG, "return distribution.sample(n, random_state=random_state)", "return distribution.sample(n)", rule="R1.global", what="LGANM.sample does not forward the seed")
+V("c13-dagfull-unseeded-rng", "C13", "fire", GE, "    rng = np.random.default_rng(random_state)\n    # Build a triangular matrix", "    rng = np.random.default_rng()\n    # Build a triangular matrix", rule="R1.generator", what="generator without the seed")
+V("c13-avgdeg-global-perm", "C13", "fire", GE, "    permutation = rng.permutation(p)\n    # Note the actual topological ordering is the \"conjugate\" of permutation eg. [3,1,2] -> [2,3,1]\n    print(", "    permutation = np.random.permutation(p)\n    # Note the actual topological ordering is the \"conjugate\" of permutation eg. [3,1,2] -> [2,3,1]\n    print(",
+  rule="R1.global", what="permutation from the global stream")
+V("c13-remove-const-seed", "C13", "fire", UT, "    A = A.astype(bool).astype(int)\n    rng = np.random.default_rng(random_state)\n    edges = directed_edges(A)", "    A = A.astype(bool).astype(int)\n    rng = np.random.default_rng(42)\n    edges = directed_edges(A)", rule="R1.generator", what="constant seed")
+V("c13-split-rng-in-loop", "C13", "fire", UT, "    rng = np.random.default_rng(random_state)\n    for sample in data:\n        n = len(sample)\n", "    for sample in data:\n        rng = np.random.default_rng(random_state)\n        n = len(sample)\n", rule="R4", what="generator rebuilt per environment")
+V("c13-anm-always-seeds", "C13", "fire", AN, SEEDLINE, "np.random.seed(random_state if random_state is not None else 0)", rule="R", what="unseeded ANM sampling is degenerate")
+V("c13-targets-seed-plus", "C13", "fire", GE, "    rng = np.random.default_rng(random_state)\n    # Build intervention sizes", "    rng = np.random.default_rng(random_state + K)\n    # Build intervention sizes", rule="R", what="derived seed")
+V("c13-silent-if-stmt", "C13", "silent", ND, "        " + SEEDLINE + "\n", "        if random_state is not None:\n            np.random.seed(random_state)\n", what="if statement for the IfExp idiom")
+V("c13-silent-helper", "C13", "silent", GE, "    rng = np.random.default_rng(random_state)\n    # Build a triangular matrix", "    gen = np.random.default_rng(random_state)\n    rng = gen\n    # Build a triangular matrix", what="alias of the generator")
+V("c13-silent-noneq", "C13", "silent", AN, SEEDLINE, "np.random.seed(random_state) if not random_state is None else None", what="`not x is None`")
